@@ -73,7 +73,7 @@ def all_candidates():
     shapes = ["s_named3", "s_tuple2", "s_named4", "s_gen", "e_mixed", "e_two", "e_single", "e_gen"]
     single = [(a, o) for a in ("hash", "eq", "ord", "partial_eq", "partial_ord") for o in OPTS[a]]
     out = []
-    for sh in shapes + ["s_unit", "e_units3", "s_named1"]:
+    for sh in shapes + ["s_unit", "e_units3", "s_named1", "s_marker"]:
         for ts in SUBSETS:
             for en in ("attr", "derive"):
                 out.append((sh, [], ts, en))
@@ -96,7 +96,7 @@ def all_candidates():
 def core_candidates():
     out = []
     single = [(a, o) for a in ("hash", "eq", "ord") for o in OPTS[a]]
-    for sh in ["s_named3", "s_tuple2", "s_gen", "e_mixed", "e_two", "e_single", "e_gen", "s_unit", "e_units3", "e_data_unit"]:
+    for sh in ["s_named3", "s_tuple2", "s_gen", "e_mixed", "e_two", "e_single", "e_gen", "s_unit", "e_units3", "e_data_unit", "s_marker"]:
         out.append((sh, [], ["Hash"], "attr"))
         out.append((sh, [], SUBSETS[3], "derive"))
     for sh, idx in (("s_named3", 1), ("e_mixed", 2), ("s_named3", 2), ("s_tuple2", 0)):
